@@ -23,6 +23,8 @@ MOTION_COEF = {"t": 64.0, "D": 8.0}
 MOTION_COEF_B = {"t": 4.0, "D": 32.0}   # shift of the second factor of a translated ProductDomain
 SPAN = 2.0
 TOL = 0.05
+PRIMS = ("I", "C", "P", "T", "S")   # Interval, Circle, Parallelogram, Triangle, Sphere
+PRIM_DIM = {"I": 1, "C": 2, "P": 2, "T": 2, "S": 3}
 CALL_BUDGET_S = 20
 MAX_FAILING_CASES = 25   # a run stops exploring once this many cases violate the property
 
@@ -40,7 +42,7 @@ def _alarm(*_):
 
 def dom_line(d):
     k = d["k"]
-    if k in ("I", "C"):
+    if k in PRIMS:
         return f"{'P' if k == 'I' else 'Q'} {d['v']} {d['id']} {common.lst(d['deps'])}"
     if k in ("U", "-", "&"):
         return f"B {dom_line(d['a'])} {dom_line(d['b'])}"
@@ -108,6 +110,27 @@ def build_dom(tp, torch, d):
         else:
             c = [float(d["base"] + d["off"] + r), 0.0]
         dom = tp.domains.Circle(Y, c, r)
+    elif k in ("P", "T"):
+        # axis-parallel rectangle / right triangle with the corners (lb,0), (lb+len,0), (lb,h): any aspect ratio h/len
+        Y = sp.R2(d["v"])
+        ln, h = float(d["len"]), float(d["h"])
+        if d["deps"]:
+            w0 = d["deps"][0]
+            mk = lambda dx, dy: eval(_fn_src(f"torch.cat([{lb_expr(d)} + {dx!r}, 0.0*{w0} + {dy!r}], dim=1)", d["deps"]), {"torch": torch})
+            corners = [mk(0.0, 0.0), mk(ln, 0.0), mk(0.0, h)]
+        else:
+            lb0 = float(d["base"] + d["off"])
+            corners = [[lb0, 0.0], [lb0 + ln, 0.0], [lb0, h]]
+        dom = (tp.domains.Parallelogram if k == "P" else tp.domains.Triangle)(Y, *corners)
+    elif k == "S":
+        Z = sp.R3(d["v"])
+        r = d["len"] / 2.0
+        if d["deps"]:
+            w0 = d["deps"][0]
+            c = eval(_fn_src(f"torch.cat([{lb_expr(d)} + {r!r}, 0.0*{w0}, 0.0*{w0}], dim=1)", d["deps"]), {"torch": torch})
+        else:
+            c = [float(d["base"] + d["off"] + r), 0.0, 0.0]
+        dom = tp.domains.Sphere(Z, c, r)
     elif k in ("U", "-", "&"):
         a, b = build_dom(tp, torch, d["a"]), build_dom(tp, torch, d["b"])
         dom = a + b if k == "U" else (a - b if k == "-" else a & b)
@@ -121,12 +144,13 @@ def build_dom(tp, torch, d):
         dom = tp.domains.Translate(inner, f)
     elif k == "Tr":
         inner = build_dom(tp, torch, d["d"])
-        dim = 2 if first_prim(d)["k"] == "C" else 1
+        dim = PRIM_DIM[first_prim(d)["k"]]
         sh = " + ".join(f"{d['coef'][w]!r}*{w}" for w in d["deps"])
         if dim == 1:
             f = eval(_fn_src(sh, d["deps"]))
         else:
-            f = eval(_fn_src(f"torch.cat([{sh}, 0.0*{d['deps'][0]}], dim=1)", d["deps"]), {"torch": torch})
+            zeros = ", ".join([f"0.0*{d['deps'][0]}"] * (dim - 1))
+            f = eval(_fn_src(f"torch.cat([{sh}, {zeros}], dim=1)", d["deps"]), {"torch": torch})
         dom = tp.domains.Translate(inner, f)
     elif k == "Ro":
         inner = build_dom(tp, torch, d["d"])
@@ -140,7 +164,7 @@ def build_dom(tp, torch, d):
 
 
 def first_prim(d):
-    while d["k"] not in ("I", "C"):
+    while d["k"] not in PRIMS:
         d = d["a"] if "a" in d else d["d"]
     return d
 
@@ -231,7 +255,7 @@ def svars(s):
 
 
 def dvars(d):
-    if d["k"] in ("I", "C"):
+    if d["k"] in PRIMS:
         return [d["v"]]
     if d["k"] == "X":
         return dvars(d["a"]) + dvars(d["b"])
@@ -298,7 +322,7 @@ def promised(s, rows_in):
 
 
 def dom_leaf_ids(d):
-    if d["k"] in ("I", "C"):
+    if d["k"] in PRIMS:
         return [(d["v"], d["id"])]
     if d["k"] == "X":
         return dom_leaf_ids(d["a"]) + dom_leaf_ids(d["b"])
@@ -310,7 +334,7 @@ def dom_leaf_ids(d):
 
 def node_extent(d, env):
     """[lo, hi] of the x-extent of a (non-product) domain node evaluated at env, before motions"""
-    if d["k"] in ("I", "C"):
+    if d["k"] in PRIMS:
         lo = lb_value(d, env)
         return lo, lo + d["len"]
     if d["k"] in ("U", "-", "&"):
@@ -337,7 +361,12 @@ def cell_verdict(d, value, env):
     lo, hi = node_extent(core, env)
     mag = max(1.0, abs(lo), abs(value[0]))
     tol = TOL + 4e-7 * mag * 8
-    own = (lo - tol <= x <= hi + tol) and abs(y) <= (hi - lo) + tol
+    fp_ = first_prim(core)
+    if fp_["k"] in ("P", "T"):
+        h = fp_["h"]
+        own = (lo - tol <= x <= hi + tol) and -tol - 1e-6 * h <= y <= h * (1 + 1e-6) + tol
+    else:
+        own = (lo - tol <= x <= hi + tol) and all(abs(c) <= (hi - lo) + tol for c in [y] + list(value[2:]))
     return own, moves, x - lo
 
 
@@ -683,8 +712,17 @@ class Gen:
         rng = self.rng
         names = [w for w in avail]
         c = rng.random()
-        two_d = kind in ("u", "l") and rng.random() < 0.15
-        p = self.prim(v, names, None, "C" if two_d else "I")
+        two_d = kind in ("u", "l", "g") and rng.random() < 0.22
+        pk = rng.choice(["C", "C", "P", "P", "T", "S"]) if two_d else "I"
+        p = self.prim(v, names, None, pk)
+        if pk in ("P", "T"):
+            # aspect ratios h/len from 1e-3 to 1e6 (thin in either direction)
+            p["len"] = rng.choice([1.0, 1.0, 0.25, 0.001])
+            p["h"] = rng.choice([1.0, 1.0, 4.0, 40.0, 1000.0, 1.0e6, 0.02, 0.001]) * (p["len"] if rng.random() < 0.5 else 1.0)
+            if p["len"] < 0.25:
+                # a width of 1e-3 is only a float32 number near the origin: such shapes do not depend on parameters
+                # (at 1024*t the corners would collapse: a degenerate shape, not a library defect)
+                p["deps"], p["coef"] = [], {}
         if kind in ("e",):
             return p
         if kind == "n":  # Gaussian proposals must hit the domain: parameter-free interval
@@ -704,7 +742,7 @@ class Gen:
         ext = [w for w in names if w in COEF]
         if ext and rng.random() < 0.3 and kind in ("u", "g", "l") and not d.get("bd"):
             mdeps = [w for w in ext if rng.random() < 0.7] or ext[:1]
-            if two_d and rng.random() < 0.5:
+            if two_d and pk == "C" and rng.random() < 0.5:
                 d = dict(k="Ro", d=d, id=self.new_id(), deps=mdeps[:1], coef={})
             else:
                 # the motion uses its own scale so that motion and inner tag stay apart
@@ -811,7 +849,7 @@ def has_kind(d, k):
 
 def shift_ids(d, gen, dbase):
     """a sibling of a domain for `+`: same variables and dependencies, new ids, shifted by dbase"""
-    if d["k"] in ("I", "C"):
+    if d["k"] in PRIMS:
         d["id"] = gen.new_id()
         d["base"] = d["base"] + dbase
         return
@@ -961,6 +999,49 @@ def gen_cross(rng):
                 tseed=rng.randint(0, 10 ** 6))
 
 
+def gen_shape(rng):
+    """size / shape extremes: every primitive (interval, circle, parallelogram, triangle, sphere) with aspect ratios up to
+    1e6 in either direction, crossed with very small n (1, 2, 3, 5), for grid / uniform / LHS samplers, alone and inside
+    every composition (product with a partner, append, sum, static with a finite interval), with and without parameter rows"""
+    g = Gen(rng)
+    kind = rng.choice(["g", "g", "g", "u", "l"])
+    k = rng.choice([0, 0, 1, 3])
+    pvars = ["t"] if k else []
+    pk = rng.choice(["P", "P", "P", "T", "T", "C", "S", "I"])
+    vpool = list(SAMPLED)
+    rng.shuffle(vpool)
+    v = vpool.pop(0)
+    p = g.prim(v, pvars, None, pk)
+    if pk in ("P", "T"):
+        ratio = rng.choice([1.0, 2.0, 4.0, 7.0, 40.0, 1000.0, 1.0e6])
+        if rng.random() < 0.5:
+            p["len"], p["h"] = 1.0, ratio              # tall
+        else:
+            p["len"], p["h"] = 1.0, 1.0 / ratio        # flat
+        if rng.random() < 0.25:
+            p["len"], p["h"], p["deps"], p["coef"] = 0.001, 0.001 * ratio, [], {}
+    n = rng.choice([1, 1, 2, 2, 3, 5])
+    lf = dict(k="leaf", kind=kind, d=p, n=n, filt=False)
+    comp = rng.choice(["alone", "alone", "product", "product", "append", "sum", "static"])
+    s = lf
+    if comp == "product":
+        s = dict(k="*", a=lf, b=simple_leaf(g, vpool.pop(0), rng.choice(["g", "u"]), (), rng.choice([1, 3])))
+    elif comp == "append":
+        s = dict(k="&", a=lf, b=dict(k="data", v=vpool.pop(0), id=g.new_id(), m=n))
+    elif comp == "sum":
+        b = json.loads(json.dumps(lf)); b["n"] = rng.choice([1, 2, 3]); shift_ids(b["d"], g, 3.0)
+        s = dict(k="+", a=lf, b=b)
+    elif comp == "static":
+        s = dict(k="T", s=lf, r=rng.choice([None, 2]))
+    pvals, pdtype = [], "float32"
+    if k:
+        pdtype = rng.choice(["float32", "float64"])
+        frac = 0.1 if pdtype == "float64" else 0.0
+        pvals = [[float(x) + frac] for x in rng.sample(range(1, 9), k)]
+    return dict(kind="sample", special="shape:" + comp, k=k, pvars=pvars, pvals=pvals, pdtype=pdtype, s=s,
+                tseed=rng.randint(0, 10 ** 6))
+
+
 def rows_handed(s, kin):
     """[(leaf, number of parameter rows it is called with)]"""
     if s["k"] in ("leaf", "data"):
@@ -979,7 +1060,7 @@ def total_rows(case):
 def gen_cases(ctx):
     rng = ctx.rng
     cases, i = [], 0
-    want = ctx.scale(620, 6200)
+    want = ctx.scale(560, 5600)
     while len(cases) < want:
         i += 1
         c = gen_case(rng, i)
@@ -995,7 +1076,8 @@ def gen_cases(ctx):
         c = gen_cross(rng)
         if total_rows(c) <= 400:
             special.append(c)
-    return cases + special + finding_probes(rng)
+    shape = [gen_shape(rng) for _ in range(ctx.scale(70, 700))]
+    return cases + special + shape + finding_probes(rng)
 
 
 # ------------------------------------------------------------------------------------------
@@ -1205,7 +1287,7 @@ def run_api(ctx, rep, only=None):
 
 def describe(case):
     def ds(d):
-        if d["k"] in ("I", "C"):
+        if d["k"] in PRIMS:
             return f"{d['k']}[{d['v']}|{','.join(d['deps'])}]" + (".bd" if d.get("bd") else "")
         if d["k"] in ("Tr", "Ro"):
             return f"{d['k']}({ds(d['d'])}|{','.join(d['deps'])})"
@@ -1254,6 +1336,9 @@ def histogram(rep, case):
         return max(walk(x["a"], depth + 1), walk(x["b"], depth + 1))
 
     def dwalk(d):
+        if d["k"] in ("P", "T"):
+            r = max(d["h"] / d["len"], d["len"] / d["h"])
+            rep.count(f"{d['k']} aspect ratio " + ("<=4" if r <= 4 else "<=100" if r <= 100 else "<=1e4" if r <= 1e4 else ">1e4"))
         rep.count("dom:" + d["k"] + (".boundary" if d.get("bd") else "") + ("(ProductDomain)" if d["k"] == "Tr" and d["d"]["k"] == "X" else ""))
         if any(w not in COEF for w in d.get("deps", [])):
             rep.count("dependency on a partner variable")
@@ -1279,7 +1364,7 @@ def histogram(rep, case):
 
 
 def dom_free(d):
-    if d["k"] in ("I", "C"):
+    if d["k"] in PRIMS:
         return set(d["deps"])
     if d["k"] == "X":
         return (dom_free(d["a"]) - set(dvars(d["b"]))) | dom_free(d["b"])
